@@ -8,7 +8,7 @@ PROPS_MODULE = "Props.C15"
 THEOREMS = ["default_reporting_data_consistent", "readable_same_duration", "half_life_shortcut_sound",
             "half_life_converted", "lookup_hit", "lookup_miss", "branching_fraction_hit", "branching_fraction_miss"]
 REQUIRED = ["Props/C15.v", "Model/Queries.v"]
-TRANSLATORS = ["tr_pure", "tr_tables", "tr_data"]
+TRANSLATORS = ["synth_dataset", "tr_data_synth", "tr_pure", "tr_tables", "tr_data"]
 SHAPE_KEYS = ["DecayData::half_life", "DecayData::branching_fraction", "DecayData::decay_mode", "DecayData::__init__",
               "Nuclide::half_life", "Nuclide::progeny", "Nuclide::branching_fractions", "Nuclide::decay_modes",
               "Nuclide::atomic_mass", "AbstractInventory::half_lives", "AbstractInventory::progeny",
@@ -28,6 +28,7 @@ def correspondence(ctx):
     rng = random.Random(ctx["seed"] + 15)
     streams, viol, samples = {}, [], []
     U.queries_stream(rng, ctx["tier"] == "thorough", streams, viol, samples)
+    U.queries_stream(rng, True, streams, viol, samples, ds="synth")
     return {"streams": streams, "violations": viol, "samples": samples}
 
 
